@@ -11,7 +11,7 @@ PROP = "C07"
 TRUSTED = [
     "Coq 8.16.1 kernel; vm_compute for generated cases; no native_compute",
     "model: coq/Model/Linear.v (ge_map, sge_map, dsge_map: functions of the genotype; the shared search stream is not an argument of the first two) over coq/Model/Synth.v",
-    "PARTIAL for dynamic SGE: proved that reads inside the existing genes draw nothing; that a second mapping of the extended genotype replays the first is checked on the implementation (pairs of mappings), not proved; the stack representation's mapping is not modelled (pairs of mappings and the shared stream are observed)",
+    "PARTIAL for dynamic SGE: proved that reads inside the existing genes draw nothing; that a second mapping of the extended genotype replays the first is checked on the implementation (pairs of mappings), not proved; the stack representation's mapping is modelled for hierarchies without metahandler-annotated and string fields (coq/Model/Stack.v: a Gallina function of the codons, compared with every observed mapping); on the others pairs of mappings and the shared stream are observed",
     "correspondence harness: harness/props/c07.py, harness/props/rep_common.py, harness/drivers/reps.py: every genotype is mapped repeatedly with unrelated draws from the shared source in between; the shared source records every answer it gives",
 ]
 RULE = ("case = hierarchy x representation x operation sequence in which genotypes (created, mutated, crossed over) are mapped repeatedly, interleaved with unrelated draws from the shared source; evaluations = operations + pairs of mappings of one genotype; "
@@ -43,8 +43,11 @@ def extra(chk, cases, res):
                 reported += 1
         if n15:
             chk.known_hit.append(f"F15: {known['F15']['what_fails']}")
-    return {"pairs_of_mappings_of_one_genotype": len(pairs), "known_region_hits_pairs": {"F15": n15}}
+    ecs, eos = rc.expand(cases, res)
+    n_sm, n_def = c06.stack_phase(chk, PROP, ecs, eos, cases)
+    return {"pairs_of_mappings_of_one_genotype": len(pairs), "known_region_hits_pairs": {"F15": n15},
+            "stack_mappings_compared_with_the_model": n_sm, "of_which_with_a_definite_model_answer": n_def}
 
 
 def run(tier, seed, replay=None):
-    return c06.run_rep(PROP, "run_c07", (), TRUSTED, RULE, tier, seed, replay, extra=extra)
+    return c06.run_rep(PROP, "run_c07", (), TRUSTED, RULE, tier, seed, replay, extra=extra, more_cases=rc.gen_stack_cases)
